@@ -59,8 +59,15 @@ RANK_IN = {"laplace": 0, "gradient": 0, "gradient_squared": 0, "divergence": 1, 
            "tensor_divergence": 2}
 BCS = [{"value": 0}, {"derivative": 0}, {"value": 1.5}, {"derivative": -1}, {"type": "mixed", "value": 1, "const": 2},
        {"curvature": 0}, {"curvature": 1}, "auto_periodic_neumann", "auto_periodic_dirichlet",
-       {"low": {"value": 1}, "high": {"derivative": 2}}, {"value_expression": "1 + COORD"}, {"derivative_expression": "COORD"}]
-BCS_TENSOR = [{"value": 0}, {"derivative": 0}, "auto_periodic_neumann", "auto_periodic_dirichlet", {"value": 1.0}]
+       {"low": {"value": 1}, "high": {"derivative": 2}}, {"value_expression": "1 + COORD"}, {"derivative_expression": "COORD"},
+       # (appended later, so that BCS[:9] stays what the end-to-end plans draw from)
+       {"type": "mixed_expression", "value": "1", "const": "2"}, {"type": "mixed_expression", "value": "0.5", "const": "1 + COORD"},
+       {"virtual_point": "2 - value"}, {"type": "mixed", "value": 0.5, "const": -1}]
+BCS_TENSOR = [{"value": 0}, {"derivative": 0}, "auto_periodic_neumann", "auto_periodic_dirichlet", {"value": 1.0},
+              # (normal-only conditions are not in the pool: they leave the virtual points of the tangential components
+              # untouched by design, so an operator that reads them returns whatever the array held before - there is nothing
+              # for the decomposed and the undivided evaluation to agree on; a false alarm of the first attempt)
+              {"derivative": 0.5}, {"type": "mixed", "value": 1, "const": 2}]
 WHITELIST = [("NotImplementedError", "Cylinders with hollow core are not implemented"),
              ("RuntimeError", "Need at least 2 support points to use curvature boundary condition"),
              ("ValueError", "Need two support points along axis"),  # the same limitation, reported by the compiled setter
